@@ -1039,7 +1039,9 @@ func (fc *FCtx) inlineCall(fi *FuncInfo, e *ast.CallExpr, recvExpr ast.Expr, st 
 	}
 	fc.frames = append(fc.frames, fr)
 	fc.inlineStack = append(fc.inlineStack, fi.Key)
+	fc.inlineCallPos = append(fc.inlineCallPos, e.Pos())
 	flow := fc.execBlock(fi.Body().List, st)
+	fc.inlineCallPos = fc.inlineCallPos[:len(fc.inlineCallPos)-1]
 	if len(flow.normal) > 0 && sig.Results().Len() == 0 {
 		for _, s := range flow.normal {
 			fr.returns = append(fr.returns, &retState{st: s})
